@@ -75,6 +75,11 @@ FAMILY = [
     # ... with entries that are functools.partial objects differing in the
     # order of their positional arguments / in one keyword value
     ("expression_types_partial", "QUOTE:(:)", "QUOTE:):(", '<p tal:content="quote:name">x</p>', "PageTemplate", "PageTemplate"),
+    # ... or classes made by one factory (same module, same qualified name)
+    ("expression_types_factory", "FACT:A-", "FACT:B-", '<p tal:content="mark:name">x</p>', "PageTemplate", "PageTemplate"),
+    # the content type a template falls back to when its body does not
+    # declare one decides between HTML and XML compilation
+    ("default_content_type", None, "text/xml", '<input type="checkbox" checked="${c}" /><p>${name}</p>', "PageTemplate", "PageTemplate"),
     # not an option at all: the names the process had in ``builtins`` when
     # it imported chameleon (gettext.install() in one of two applications
     # sharing the directory) decide how a free name is compiled
@@ -98,12 +103,16 @@ NEAR_BODIES = [
     ("<p>a\tb ${name}</p>", "<p>a b ${name}</p>"),
     ("<p>caf\u00e9 ${name}</p>", "<p>cafe\u0301 ${name}</p>"),
     ("<p>${name }</p>", "<p>${name}</p> "),
+    # a lone surrogate (text that came through surrogateescape)
+    ("<p>\ud800x ${name}</p>", "<p>x ${name}</p>"),
+    ("<p>\ud800 ${name}</p>", "<p>\ud801 ${name}</p>"),
 ]
 FAMILY += [("body_near", a, b, None, "PageTemplate", "PageTemplate")
            for a, b in NEAR_BODIES]
 FAMILY_BY_NAME = {f[0]: f for f in FAMILY}
 OPTION_OF = {
     "expression_types_partial": "expression_types",
+    "expression_types_factory": "expression_types",
     "extra_builtins_value": "extra_builtins",
     "extra_builtins_more": "extra_builtins",
     "boolean_attributes_unset_vs_empty": "boolean_attributes",
@@ -190,6 +199,28 @@ class QuoteExpr:
             closing=ast.Constant(self.closing))
 
 
+def make_mark(mark: str):
+    """A factory of expression-type classes: every class it returns has the
+    same module and the same qualified name."""
+
+    class Mark:
+        def __init__(self, expression):
+            self.expression = expression
+
+        def __call__(self, target, engine):
+            import ast
+            from chameleon.codegen import template
+            compiler = engine.parse(self.expression)
+            body = compiler.assign_value(target)
+            return body + template(
+                "target = mark + str(target)", target=target,
+                mark=ast.Constant(mark))
+    return Mark
+
+
+_MARKS: dict = {}
+
+
 def _verif_gb(s):
     """Installed into ``builtins`` (what gettext.install() does with _)."""
     return str(s).upper()
@@ -265,6 +296,13 @@ class C15(CheckBase):
                 _, a_, b_ = v.split(":")
                 v = dict(self.zt.PageTemplate.expression_types,
                          quote=partial(QuoteExpr, a_, b_))
+            if k == "expression_types" and isinstance(v, str) and \
+                    v.startswith("FACT:"):
+                m_ = v[5:]
+                if m_ not in _MARKS:
+                    _MARKS[m_] = make_mark(m_)
+                v = dict(self.zt.PageTemplate.expression_types,
+                         mark=_MARKS[m_])
             if k == "expression_types" and v == "PY_AS_STRING":
                 from chameleon.tales import StringExpr
                 v = dict(self.zt.PageTemplate.expression_types,
@@ -395,7 +433,9 @@ class C15(CheckBase):
             if name in ("implicit_i18n_translate",):
                 pass
             if name not in ("class", "class_module", "filename") and \
-                    ch.coin(0.35):
+                    ch.coin(0.35) and not any(
+                        0xD800 <= ord(c_) <= 0xDFFF
+                        for c_ in ta["body"] + tb["body"]):
                 # (the last one: a legal name so long that the entry's name
                 # comes close to the file system's limit)
                 fn = ch.pick(["index.pt", "a_rather_long_template_name.pt",
